@@ -1,0 +1,58 @@
+// Copyright 2024 Versity Software
+// This file is licensed under the Apache License, Version 2.0
+// (the "License"); you may not use this file except in compliance
+// with the License.  You may obtain a copy of the License at
+//
+//   http://www.apache.org/licenses/LICENSE-2.0
+//
+// Unless required by applicable law or agreed to in writing,
+// software distributed under the License is distributed on an
+// "AS IS" BASIS, WITHOUT WARRANTIES OR CONDITIONS OF ANY
+// KIND, either express or implied.  See the License for the
+// specific language governing permissions and limitations
+// under the License.
+
+package middlewares
+
+import (
+	"strings"
+
+	"github.com/gofiber/fiber/v2"
+	"github.com/versity/versitygw/backend"
+	"github.com/versity/versitygw/metrics"
+	"github.com/versity/versitygw/s3api/controllers"
+	"github.com/versity/versitygw/s3err"
+	"github.com/versity/versitygw/s3log"
+)
+
+// GuardPaths refuses requests whose bucket name, object key, version id
+// or upload id would resolve to another location than the one it names:
+// `.` and `..` path segments, NUL bytes, and path separators in ids.
+// The backends join these values into file system paths, so they must
+// never be able to leave the bucket and object they address.
+func GuardPaths(logger s3log.AuditLogger, mm *metrics.Manager) fiber.Handler {
+	return func(ctx *fiber.Ctx) error {
+		fail := func(code s3err.ErrorCode) error {
+			return controllers.SendResponse(ctx, s3err.GetAPIError(code),
+				&controllers.MetaOpts{Logger: logger, MetricsMng: mm})
+		}
+
+		bucket, key, _ := strings.Cut(strings.TrimPrefix(ctx.Path(), "/"), "/")
+		if bucket == "." || bucket == ".." || strings.ContainsRune(bucket, 0) {
+			return fail(s3err.ErrInvalidBucketName)
+		}
+		if !backend.IsSafeObjectKey(key) {
+			return fail(s3err.ErrInvalidURI)
+		}
+
+		args := ctx.Request().URI().QueryArgs()
+		if args.Has("versionId") && !backend.IsSafeID(ctx.Query("versionId")) {
+			return fail(s3err.ErrInvalidVersionId)
+		}
+		if args.Has("uploadId") && !backend.IsSafeID(ctx.Query("uploadId")) {
+			return fail(s3err.ErrNoSuchUpload)
+		}
+
+		return ctx.Next()
+	}
+}
